@@ -1,6 +1,6 @@
 ENGINES = [
     {'name': 'mirsym', 'path': '/verif/mirsym',
-     'serves_properties': ['C01', 'C04', 'C05', 'C12', 'C16', 'C17', 'C18', 'C19'],
+     'serves_properties': ['C01', 'C03', 'C04', 'C05', 'C09', 'C12', 'C16', 'C17', 'C18', 'C19'],
      'kind_free_text': 'symbolic executor over the MIR that rustc emits for /repo\'s working tree (regenerated per tree state); std modelled at the call boundary; z3 QF_BV decides every branch and every obligation; counterexamples replayed natively through /verif/replay'},
 ]
 NOTES = 'Every check: exit 0 = held for all inputs inside the stated bounds (KNOWN-FINDING lines allowed); exit 1 = natively reproducing violation; exit 2 = inconclusive (unsupported construct, solver unknown, model/native mismatch, vacuous harness) and is never reported as a pass.'
@@ -54,10 +54,22 @@ CHECKS['C05'] = {
     'note': 'inputs satisfy start <= end; notes-tree fan-out (K3) and object-database facts are not encoded',
     'technique': 'MIR symbolic execution + z3 (bounded; line numbers fully symbolic u32), native replay',
 }
+CHECKS['C09'] = {
+    'text': 'Kernel claim. Bounded symbolic execution of the real note lookup (get_line_attribution) and blame overlay (overlay_ai_authorship): for every note, queried file, fully symbolic line, and for every set of blame hunks with symbolic final/original line numbers, a line is reported for session S exactly when the originating commit\'s note lists the original line number for the path the file had in that commit (last listing entry wins), lines of commits without a note are human/Unknown per the options, and no other line gets an author. Counterexamples are replayed natively: the lookup directly, the overlay on real commits carrying the notes, the rename case on a real `git mv` history through the whole blame pipeline.',
+    'design_ref': 'DESIGN.md §4 C09',
+    'note': 'the hunks themselves come from git blame (not encoded); formatter agreement reduces to the single line_authors map decided here; foreign-prompt grep is an environment model that finds nothing',
+    'technique': 'MIR symbolic execution + z3 (bounded; line numbers symbolic), native replay incl. a real rename history',
+}
+CHECKS['C03'] = {
+    'text': 'Kernel claim. Bounded symbolic execution of the real discard paths over a model file system: after remove_attributions_for_pathspecs (path checkout / restore) no file matched by a pathspec is named by INITIAL or by any checkpoint entry that the (model) disk now holds — read back through the real readers — and files not matched are unchanged; after reset_working_log nothing is pending. The soundness half of the commit path (only session-reported lines that the commit added reach a note, never a human entry) is decided by the C04 check.',
+    'design_ref': 'DESIGN.md §4 C03',
+    'note': 'file system and serde_json are models (map path -> content; injective codec); the hook dispatch that decides WHEN these helpers run is not encoded; `.` pathspecs are outside (helper matches literal prefixes)',
+    'technique': 'MIR symbolic execution + z3 (bounded) over a model file system, native replay on a scratch repository',
+}
 _PENDING = 'check not built yet in this round (under construction; see DESIGN.md §4)'
 NOT_APPLICABLE = {
-    'C02': _PENDING, 'C03': _PENDING, 'C06': _PENDING,
-    'C07': _PENDING, 'C08': _PENDING, 'C09': _PENDING, 'C14': _PENDING, 'C15': _PENDING,
+    'C02': _PENDING,  'C06': _PENDING,
+    'C07': _PENDING, 'C08': _PENDING,  'C14': _PENDING, 'C15': _PENDING,
     'C20': _PENDING,
     'C10': 'convergence of notes across clones is decided by git\'s notes-merge / ref-transaction semantics over several repositories; git-ai\'s part is a fixed sequence of subprocess calls with no branch the solver could decide (DESIGN.md §7)',
     'C11': 'interleavings of processes over a file system and git ref locks; neither Kani nor the MIR executor models OS-level concurrency (DESIGN.md §7)',
